@@ -1,22 +1,27 @@
 (* C10 -- executors are transparent and a node's inputs are frozen while it is out.
    Model: Remote.v (heap of node / channel OBJECTS with identities; dump = __getstate__ chain, restore =
-   unpickling + __setstate__ chain, merge_remote = Composite/Macro._parse_remotely_executed_self, the run
-   cycle with the input lock).  Only Theorem / exact / Print Assumptions here; proofs in RemoteProofs.v.
+   unpickling + __setstate__ chain, merge_remote = Composite._parse_remotely_executed_self, the run cycle with
+   the input lock).  Mode [AsWritten] = the code as it is since the fix of the merge (build/c10_fix.diff:
+   grafting for every composite, fresh channels re-owned, local detached path kept, value links across the
+   boundary re-forged); that is the mode the correspondence check runs.  Only Theorem / exact / Print
+   Assumptions here; proofs in RemoteProofs.v.
 
    What is proved where
    * "same outputs as running locally, for every executor assignment and every completion order":
      C10_remote_equals_local, from C01 (Dag.v): the children's functions [sem] are arbitrary, so a macro child
      counts as one (its own run is plain composition by the same theorem one level down).  What the boundary
      adds -- the copy computes what the original would -- is the pickle round trip (C07) and is tied to the code
-     by this property's correspondence check (remote vs all-local outputs of every node).
+     by this property's correspondence check (remote vs all-local outputs of every node); for a function node it
+     is proved here (C10_delivered_belongs_to_shown_partial).
    * "afterwards the local graph keeps its parent, its executor setting and all connections to its
-     neighbours, new children are adopted, nothing is left running": C10_merge_neighbourhood_* for EVERY heap
-     that meets [merge_pre] (the copy is a separate object graph, connections are symmetric, IO labels
-     unique; checked on every state the harness reflects).
+     neighbours, new children are adopted, nothing is left running": C10_merge_* for EVERY heap that meets
+     [merge_pre] (the copy is a separate object graph, connections are symmetric, IO labels unique; decidable,
+     and evaluated by the harness on the state of every merge it drives), every kind of composite.
    * "while out every attempt to change its inputs is refused ... unlocked after success AND failure":
      C10_lock_*, for EVERY state.
-   The unchanged code violates the property in five ways (known_findings.d/C10.json); each has its
-   [_refuted] theorem, and the [_partial] / [_repaired] theorems carry the matching guard. *)
+   One clause is still violated by the code: a WORKFLOW that is out leaves its inputs (its children's channels)
+   writable -- C10_lock_refuted_workflow, known finding C10-workflow-inputs-unlocked; C10_lock_partial carries the
+   matching guard (the channel is owned by the node that is out). *)
 From PW Require Import Base Remote RemoteProofs.
 From PW Require Dag DagProofs.
 
@@ -42,22 +47,23 @@ End Transparency.
 Print Assumptions C10_remote_equals_local.
 
 (* ---- merging the copy that came back ---------------------------------------------------------------- *)
-(* The code as it is, a Macro: parent, executor setting and class kept, not running; it holds the copy's
-   children (each names it as parent; their flags are the delivered ones) and the copy's IO panels; every old
-   IO channel has a fresh counterpart with the same panel and label that carries the old connection list in
-   the old order, and every channel outside the copy lists the fresh channel exactly where it listed the old
-   one.  MISSING from the full statement (refuted below): the fresh channels' owner, the lexical path of a
-   node that has a parent, composites other than Macro, value links across the node's boundary. *)
-Theorem C10_merge_neighbourhood_partial : forall h i c2,
-  merge_pre h i c2 -> n_kind (nd h i) = KMacro ->
-  merge_post h i c2 (merge_remote AsWritten h i c2).
-Proof.
-  intros h i c2 MP K. refine (proj1 (merge_spec AsWritten h i c2 MP _)). rewrite K. reflexivity.
-Qed.
-Print Assumptions C10_merge_neighbourhood_partial.
+(* EVERY kind of composite (Macro, For, Workflow), every heap meeting [merge_pre].  [merge_post]: parent, executor
+   setting and class kept, not running, label = the copy's; the node holds the copy's children (each names it as
+   parent; their flags are the delivered ones) and the copy's IO panels; every old IO channel has a fresh
+   counterpart with the same panel and label that carries the old connection list in the old order; every
+   channel outside the copy lists the fresh channel exactly where it listed the old one; no other node is
+   touched.  Plus: the detached path stays the local one, and every channel of the node's panels is OWNED by
+   the node. *)
+Theorem C10_merge_neighbourhood : forall h i c2, merge_pre h i c2 ->
+  let h' := merge_remote AsWritten h i c2 in
+  merge_post h i c2 h' /\ n_detached (nd h' i) = n_detached (nd h i) /\
+  (forall n, In n (n_chans (nd h' i)) -> c_owner (ch h' n) = i).
+Proof. intros h i c2 MP. exact (merge_spec AsWritten h i c2 MP eq_refl). Qed.
+Print Assumptions C10_merge_neighbourhood.
 
-(* ... spelled out for one old channel o and one neighbour x of it *)
-Theorem C10_neighbours_repointed_partial : forall h i c2, merge_pre h i c2 -> n_kind (nd h i) = KMacro ->
+(* ... spelled out for one old channel o and one neighbour x of it: mutual, at the same position, pointing at
+   the live channel; the dead one is listed nowhere *)
+Theorem C10_neighbours_repointed : forall h i c2, merge_pre h i c2 ->
   forall o x, In o (n_chans (nd h i)) -> In x (c_conns (ch h o)) ->
   let h' := merge_remote AsWritten h i c2 in
   let f := fresh_of h c2 o in
@@ -65,75 +71,31 @@ Theorem C10_neighbours_repointed_partial : forall h i c2, merge_pre h i c2 -> n_
   c_conns (ch h' f) = c_conns (ch h o) /\
   c_conns (ch h' x) = map (fresh_sub h i c2) (c_conns (ch h x)) /\
   (In o (c_conns (ch h x)) -> In f (c_conns (ch h' x))) /\ ~ In o (c_conns (ch h' x)).
-Proof.
-  intros h i c2 MP K. apply (neighbours_repointed AsWritten h i c2 MP). rewrite K. reflexivity.
-Qed.
-Print Assumptions C10_neighbours_repointed_partial.
+Proof. intros h i c2 MP. exact (neighbours_repointed AsWritten h i c2 MP eq_refl). Qed.
+Print Assumptions C10_neighbours_repointed.
 
-(* Nothing is left running: for EVERY heap, either discipline, no hypothesis at all. *)
+(* Nothing is left running: for EVERY heap, no hypothesis at all. *)
 Theorem C10_merge_not_running : forall mode h i c2, n_running (nd (merge_remote mode h i c2) i) = false.
 Proof. exact merge_not_running. Qed.
 Print Assumptions C10_merge_not_running.
 
-(* The lexical path: guard = the node has no parent (S15 is the other case). *)
-Theorem C10_merge_path_partial : forall h i c2,
-  merge_pre h i c2 -> n_kind (nd h i) = KMacro -> n_parent (nd h i) = None ->
-  forall f, lpath (S f) (merge_remote AsWritten h i c2) i <> None.
-Proof. exact merge_path_partial. Qed.
-Print Assumptions C10_merge_path_partial.
-
-(* The FULL statement holds for the patched discipline ([Repaired] = the diff proposed in the report, validated
-   against a patched worktree by the same correspondence check): every kind of composite, plus ownership of
-   the fresh channels, plus the detached path stays the local one. *)
-Theorem C10_merge_neighbourhood_repaired : forall h i c2, merge_pre h i c2 ->
-  let h' := merge_remote Repaired h i c2 in
-  merge_post h i c2 h' /\ n_detached (nd h' i) = n_detached (nd h i) /\
-  (forall n, In n (n_chans (nd h' i)) -> c_owner (ch h' n) = i).
-Proof. intros h i c2 MP. exact (merge_spec Repaired h i c2 MP eq_refl). Qed.
-Print Assumptions C10_merge_neighbourhood_repaired.
+(* The lexical path of the merged node is what it was (S15 repaired).  Pickling keeps the label; the node's
+   ancestors are none of the objects a merge touches (true of any tree). *)
+Theorem C10_merge_path_kept : forall h i c2, merge_pre h i c2 -> n_label (nd h c2) = n_label (nd h i) ->
+  (forall m, reach h i m -> m = i \/ (m <> c2 /\ ~ In m (n_children (nd h c2)) /\ ~ In m (n_children (nd h i)))) ->
+  forall f, lpath f (merge_remote AsWritten h i c2) i = lpath f h i.
+Proof. exact merge_path_kept. Qed.
+Print Assumptions C10_merge_path_kept.
 
 (* The hypotheses are decidable; the harness evaluates [merge_preb] on the state of every merge it drives. *)
 Theorem C10_merge_pre_decidable : forall h i c2, merge_preb h i c2 = true -> merge_pre h i c2.
 Proof. exact merge_preb_sound. Qed.
 Print Assumptions C10_merge_pre_decidable.
 
-(* ---- what the unchanged code gets wrong (faithful model, vm_compute witnesses = reflected real graphs) - *)
-(* S15: a macro WITH a parent ends with parent and detached path both set: its lexical path raises. *)
-Theorem C10_macro_with_parent_refuted : exists h i c2,
-  merge_pre h i c2 /\ n_kind (nd h i) = KMacro /\ n_parent (nd h i) <> None /\
-  lpath PFUEL h i = Some "/wf/n1" /\ lpath PFUEL (merge_remote AsWritten h i c2) i = None.
-Proof. exact merge_path_refuted. Qed.
-Print Assumptions C10_macro_with_parent_refuted.
-
-(* the fresh IO channels are owned by the discarded copy *)
-Theorem C10_merge_owner_refuted : exists h i c2,
-  merge_pre h i c2 /\ n_kind (nd h i) = KMacro /\
-  forallb (fun c => Nat.eqb (c_owner (ch h c)) i) (n_chans (nd h i)) = true /\
-  let h' := merge_remote AsWritten h i c2 in
-  forallb (fun c => Nat.eqb (c_owner (ch h' c)) c2) (n_chans (nd h' i)) = true /\ n_chans (nd h' i) <> [].
-Proof. exact merge_owner_refuted. Qed.
-Print Assumptions C10_merge_owner_refuted.
-
-(* a For node loses its connections; its neighbours keep listing the dead channels *)
-Theorem C10_merge_for_refuted : exists h i c2 o x,
-  merge_pre h i c2 /\ n_kind (nd h i) = KFor /\ In o (n_chans (nd h i)) /\ In x (c_conns (ch h o)) /\
-  let h' := merge_remote AsWritten h i c2 in
-  c_conns (ch h' (fresh_of h c2 o)) = [] /\ In o (c_conns (ch h' x)) /\ ~ In o (n_chans (nd h' i)).
-Proof. exact merge_for_refuted. Qed.
-Print Assumptions C10_merge_for_refuted.
-
-(* value links to the parent macro's IO are lost: the parent's output is never delivered *)
-Theorem C10_merge_links_refuted :
-  let out := match find_chan demo_links 2 POut "out" with Some c => c | None => 0 end in
-  n_kind (nd demo_links 2) = KMacro /\ c_owner (ch demo_links out) = 2 /\
-  c_val (ch (fst (run_node AsWritten RFUEL demo_links 0)) out) = None /\
-  c_val (ch (fst (run_node Repaired RFUEL demo_links 0)) out) = Some 7%Z.
-Proof. exact merge_links_refuted. Qed.
-Print Assumptions C10_merge_links_refuted.
-
 (* ---- the input lock ------------------------------------------------------------------------------------ *)
-(* EVERY state: an assignment to an input whose owner is running is refused and changes nothing.  Guard of
-   the property's own wording ("its inputs"): the channel must be OWNED by the node that is out. *)
+(* EVERY state: an assignment to an input whose owner is running is refused and changes nothing.  Guard
+   (what is missing from the full statement: the workflow case below): the channel is OWNED by the node that is
+   out. *)
 Theorem C10_lock_partial : forall mode X s l v c,
   find_chan (c_heap s) X PIn l = Some c ->
   n_running (nd (c_heap s) (c_owner (ch (c_heap s) c))) = true ->
@@ -141,46 +103,35 @@ Theorem C10_lock_partial : forall mode X s l v c,
 Proof. exact lock_refuses. Qed.
 Print Assumptions C10_lock_partial.
 
-(* unlocked again after the job ended: success or failure, value or merge, any heap, either discipline *)
+(* after a merge that guard holds for every input of the merged node: the lock works the next time it is out *)
+Theorem C10_lock_again_after_merge : forall h i c2 s l v c X,
+  merge_pre h i c2 -> c_heap s = merge_remote AsWritten h i c2 -> X = i ->
+  find_chan (c_heap s) X PIn l = Some c -> n_running (nd (c_heap s) X) = true ->
+  step AsWritten X s (OSet l v) = log s (c_heap s) (c_jobs s) "RuntimeError".
+Proof. exact repaired_lock_again. Qed.
+Print Assumptions C10_lock_again_after_merge.
+
+(* while out, assignments leave the whole heap and the job list untouched *)
+Theorem C10_frozen_while_out : forall mode X sets s, Forall is_set sets ->
+  n_running (nd (c_heap s) X) = true ->
+  (forall c, In c (chans_of (c_heap s) X PIn) -> c_owner (ch (c_heap s) c) = X) ->
+  c_heap (fold_left (step mode X) sets s) = c_heap s /\ c_jobs (fold_left (step mode X) sets s) = c_jobs s.
+Proof. exact sets_frozen. Qed.
+Print Assumptions C10_frozen_while_out.
+
+(* unlocked again after the job ended: success or failure, value or merge, any heap *)
 Theorem C10_unlock : forall mode h j,
   n_running (nd (fst (complete_job mode h j)) (job_node j)) = false /\
   forall c, c_owner (ch (fst (complete_job mode h j)) c) = job_node j -> locked (fst (complete_job mode h j)) c = false.
 Proof. intros mode h j. split; [apply complete_unlocks|intros c; apply complete_unlocks_inputs]. Qed.
 Print Assumptions C10_unlock.
 
-(* the second time a merged macro is out its inputs are no longer frozen (they are under the patch) *)
-Theorem C10_lock_refuted_after_merge :
-  let X := 0 in
-  let s := run_ops AsWritten X demo_alone [ORun; OComplete; ORun] in
-  n_running (nd (c_heap s) X) = true /\ c_jobs s <> [] /\
-  c_log (step AsWritten X s (OSet "x" 9%Z)) = [OS "Future"; OS "done"; OS "Future"; OS "ok"] /\
-  c_log (step Repaired X (run_ops Repaired X demo_alone [ORun; OComplete; ORun]) (OSet "x" 9%Z))
-    = [OS "Future"; OS "done"; OS "Future"; OS "RuntimeError"].
-Proof. exact lock_refuted_after_merge. Qed.
-Print Assumptions C10_lock_refuted_after_merge.
-
-(* a workflow that is out: its inputs belong to its children and stay writable *)
-Theorem C10_lock_refuted_workflow : exists h wf c,
-  n_kind (nd h wf) = KWf /\ n_running (nd h wf) = true /\ crosses (n_exec (nd h wf)) = true /\
-  In c (shown_inputs h wf) /\ locked h c = false /\ c_owner (ch h c) <> wf.
-Proof. exact lock_refuted_workflow. Qed.
-Print Assumptions C10_lock_refuted_workflow.
-
-(* after a PATCHED merge the guard of C10_lock_partial holds again for every input of the node *)
-Theorem C10_lock_again_repaired : forall h i c2 s l v c X,
-  merge_pre h i c2 -> c_heap s = merge_remote Repaired h i c2 -> X = i ->
-  find_chan (c_heap s) X PIn l = Some c -> n_running (nd (c_heap s) X) = true ->
-  step Repaired X s (OSet l v) = log s (c_heap s) (c_jobs s) "RuntimeError".
-Proof. exact repaired_lock_again. Qed.
-Print Assumptions C10_lock_again_repaired.
-
-(* ---- "so the outputs delivered belong to the inputs the node shows" -------------------------------------- *)
-(* A function node on a boundary executor: run(), then ANY sequence of assignments to its inputs (all bounce,
-   by C10_lock_partial), then the job ends: the output is the node's function of the inputs it shows at that
-   moment.  Hypotheses: the node is idle and ready, owns its channels, ids in use lie below the allocation
-   pointer, its output has no value receiver (a child of a workflow).  For composites the same conclusion is
-   what the correspondence check observes ("delivered" = a fresh local run on the inputs shown); after a merge
-   of the unpatched code it is refuted together with the lock (C10_lock_refuted_after_merge). *)
+(* "so the outputs delivered belong to the inputs the node shows": a function node on a boundary executor:
+   run(), then ANY sequence of assignments to its inputs (all bounce), then the job ends: the output is the
+   node's function of the inputs it shows at that moment.  Hypotheses: the node is idle and ready, owns its
+   channels, ids in use lie below the allocation pointer, its output has no value receiver (a child of a
+   workflow).  Missing from the full statement: composites, for which the same conclusion is what the
+   correspondence check observes ("delivered" = a fresh local run on the inputs shown). *)
 Theorem C10_delivered_belongs_to_shown_partial : forall mode X f h h1 sets vals v o rest,
   n_kind (nd h X) = KLeaf f -> n_children (nd h X) = [] -> crosses (n_exec (nd h X)) = true ->
   fetch h X = Some h1 -> n_running (nd h X) = false -> n_failed (nd h X) = false ->
@@ -197,29 +148,48 @@ Theorem C10_delivered_belongs_to_shown_partial : forall mode X f h h1 sets vals 
 Proof. exact delivered_belongs_to_shown. Qed.
 Print Assumptions C10_delivered_belongs_to_shown_partial.
 
-(* while out, assignments leave the whole heap and the job list untouched *)
-Theorem C10_frozen_while_out : forall mode X sets s, Forall is_set sets ->
-  n_running (nd (c_heap s) X) = true ->
-  (forall c, In c (chans_of (c_heap s) X PIn) -> c_owner (ch (c_heap s) c) = X) ->
-  c_heap (fold_left (step mode X) sets s) = c_heap s /\ c_jobs (fold_left (step mode X) sets s) = c_jobs s.
-Proof. exact sets_frozen. Qed.
-Print Assumptions C10_frozen_while_out.
+(* STILL VIOLATED: a workflow that is out: its inputs belong to its children and stay writable
+   (known finding C10-workflow-inputs-unlocked). *)
+Theorem C10_lock_refuted_workflow : exists h wf c,
+  n_kind (nd h wf) = KWf /\ n_running (nd h wf) = true /\ crosses (n_exec (nd h wf)) = true /\
+  In c (shown_inputs h wf) /\ locked h c = false /\ c_owner (ch h c) <> wf.
+Proof. exact lock_refuted_workflow. Qed.
+Print Assumptions C10_lock_refuted_workflow.
 
-(* ---- non-vacuity: the state in which the real macro /wf/n1 = MA{a -> b}, connected to /wf/n0 and /wf/n2, is
-   merged after a pickle-boundary run meets the hypotheses; the merge keeps parent and executor, adopts the two
-   new children, and the neighbour n0.y lists the fresh input channel. *)
+(* ---- non-vacuity (states reflected from real object graphs) --------------------------------------------- *)
+(* the state in which the real macro /wf/n1 = MA{a -> b}, connected to /wf/n0 and /wf/n2, is merged after a
+   pickle-boundary run meets the hypotheses; the merge keeps parent, executor and lexical path, adopts the two
+   new children, owns its fresh channels, and the neighbour n0.y lists the fresh input channel *)
 Example C10_hyps_hold :
-  let h := fst site_child in let c2 := snd site_child in
-  merge_preb h 2 c2 = true /\ n_kind (nd h 2) = KMacro /\
+  let h := fst site_now in let c2 := snd site_now in
+  merge_preb h 2 c2 = true /\ n_kind (nd h 2) = KMacro /\ n_label (nd h c2) = n_label (nd h 2) /\
   let h' := merge_remote AsWritten h 2 c2 in
-  n_parent (nd h' 2) = Some 0 /\ n_exec (nd h' 2) = ExInst 1 /\
+  n_parent (nd h' 2) = Some 0 /\ n_exec (nd h' 2) = ExInst 1 /\ lpath PFUEL h' 2 = Some "/wf/n1" /\
   List.length (n_children (nd h' 2)) = 2 /\
   forallb (fun k => match n_parent (nd h' k) with Some p => Nat.eqb p 2 | None => false end) (n_children (nd h' 2)) = true /\
+  forallb (fun c => Nat.eqb (c_owner (ch h' c)) 2) (n_chans (nd h' 2)) = true /\
   c_conns (ch h' 7) = [fresh_of h c2 12] /\ c_conns (ch h' (fresh_of h c2 12)) = [7].
 Proof. vm_compute. repeat split; reflexivity. Qed.
 
-(* ... and the real function node /wf/n0 = Lin1(tag 0, k 1, a 3), given a pickle-boundary executor, meets the
-   hypotheses of C10_delivered_belongs_to_shown_partial. *)
+(* the same graph with the node a For-kind composite: its neighbours are kept as well *)
+Example C10_for_kind_keeps_neighbours :
+  let h := fst site_for_now in let c2 := snd site_for_now in
+  merge_preb h 2 c2 = true /\ n_kind (nd h 2) = KFor /\
+  let h' := merge_remote AsWritten h 2 c2 in
+  c_conns (ch h' 7) = [fresh_of h c2 12] /\ c_conns (ch h' (fresh_of h c2 12)) = [7].
+Proof. vm_compute. repeat split; reflexivity. Qed.
+
+(* a macro whose IO is value-linked to a nested macro that runs across the boundary delivers its output; and the
+   second time a merged macro is out its inputs are frozen again *)
+Example C10_links_and_second_lock :
+  let out := match find_chan demo_links 2 POut "out" with Some c => c | None => 0 end in
+  c_val (ch (fst (run_node AsWritten RFUEL demo_links 0)) out) = Some 7%Z /\
+  c_log (step AsWritten 0 (run_ops AsWritten 0 demo_alone [ORun; OComplete; ORun]) (OSet "x" 9%Z))
+    = [OS "Future"; OS "done"; OS "Future"; OS "RuntimeError"].
+Proof. vm_compute. split; reflexivity. Qed.
+
+(* the real function node /wf/n0 = Lin1(tag 0, k 1, a 3), given a pickle-boundary executor, meets the
+   hypotheses of C10_delivered_belongs_to_shown_partial *)
 Example C10_delivery_hyps_hold :
   let X := 1 in
   let h := setn demo_child X (let n := nd demo_child X in
